@@ -50,6 +50,11 @@ class IrEngineBase(Engine):
     shrink_order = ("hist", "cfg")
     mode = "C01"
     group_bias: dict[str, int] = {}
+    long_histories = False
+
+    def prepare(self, tier: str, seed: int) -> None:
+        # thorough: histories of up to 240 calls (quick: up to 80)
+        self.long_histories = tier == "thorough"
 
     # -- one run ------------------------------------------------------------
     def run(self, ch: Chooser, trace: bool) -> RunResult:
@@ -59,7 +64,7 @@ class IrEngineBase(Engine):
         st = res.stats
         tr: list[str] | None = [] if trace else None
         max_ops = SIZE_CLASSES[cfg.choice(len(SIZE_CLASSES))]
-        n_steps = 8 + cfg.choice(73)
+        n_steps = 8 + cfg.choice(233 if self.long_histories else 73)
         fr = FAULT_RATES[cfg.choice(len(FAULT_RATES))]
         gw: dict[str, int] = {}
         for gname in GROUPS:
